@@ -312,8 +312,13 @@ func main() {
 	scn = append(scn, &vexplore.Scenario{Name: "replace-publisher", Desc: "always-available stream: publisher A (2 writes) is replaced by B (1 write) concurrently; reader attached",
 		Body: pmlib.ReplaceBody, Check: pmlib.CheckReplace, QuickBound: 2, ThoroughBound: 3, Horizon: 8000,
 		Bg: []string{"dumper.go", "stream/offline_sub_stream_track.go"}})
+	computeAliasRef()
+	for _, c := range codecs {
+		scn = append(scn, &vexplore.Scenario{Name: "delayed-" + c.name, Desc: "one " + c.name + " format whose units are rewritten by the format updater/unit remuxer/RTP encoder (parameters in band, key frames, changed parameters); the reader (queue 8) is delayed arbitrarily relative to the writer; every delivered unit must equal the lock-step reference",
+			Body: bodyAlias(c), Check: checkAlias(c), QuickBound: 1, ThoroughBound: 2, Horizon: 5000, MinOutcomes: 2, Bg: []string{"dumper.go"}})
+	}
 	vexplore.Main("C17", scn, []string{
-		"payload alphabet: H.264 non-IDR NALU {1,id} and G.711 samples {id,id} (identity remux); remux content is C22's subject",
+		"payload alphabet: H.264 non-IDR NALU {1,id} and G.711 samples {id,id} (identity remux) in the ordering scenarios; 4-6 unit sequences of H.264/H.265/MPEG-4 Video/AV1 with in-band and changed parameters in the delayed-delivery scenarios (oracle: lock-step reference run; the remuxed content itself is C22's subject)",
 		"background tickers of counterdumper/errordumper fire only when nothing else is enabled (they only log)",
 		"memory-model effects below the level of lock/channel operations are not explored (see C40 race pass)",
 	})
